@@ -231,13 +231,23 @@ impl<'a> Packet<'a> {
     }
 
     fn write_header<T: Write>(&self, out: &mut T) -> crate::Result<()> {
+        // the OPT pseudo-record is written with the additional records
+        let additional_records = self.additional_records.len() + usize::from(self.header.opt.is_some());
         self.header.write_to(
             out,
-            self.questions.len() as u16,
-            self.answers.len() as u16,
-            self.name_servers.len() as u16,
-            self.additional_records.len() as u16 + u16::from(self.header.opt.is_some()),
+            Self::section_count(self.questions.len())?,
+            Self::section_count(self.answers.len())?,
+            Self::section_count(self.name_servers.len())?,
+            Self::section_count(additional_records)?,
         )
+    }
+
+    /// Section counts are 16 bit fields, larger sections can't be represented
+    fn section_count(len: usize) -> crate::Result<u16> {
+        if len > u16::MAX as usize {
+            return Err(crate::SimpleDnsError::InvalidDnsPacket);
+        }
+        Ok(len as u16)
     }
 }
 
